@@ -223,7 +223,80 @@ def run(ctx):
                 "library pipeline's predictions; non-trivial = run with at least one flag and more than one line")
     models = predict_tool(ctx, binp, cli, wd)
     evaluate_tool(ctx, binp, cli, wd, models)
+    train_tool(ctx, binp, cli, wd)
 
 
 def replay(ctx, path):
     raise vlib.ToolError("replay: re-run bin/check C20")
+
+
+def train_tool(ctx, binp, cli, wd):
+    """train (the CLI) must produce byte for byte the model the library produces from the corpus as the specification says it is
+    loaded (Gen_TrainCorpus: parse, normalise the text only, keep labels and tags; dictionary = sorted token surfaces)."""
+    tok1 = ["aあ 1a a", "あ aa1", "1 aあa 1", "a/A あ/B 1", "a/Z あ/B"]
+    tok2 = ["ab-c d.e", "A1 b2/N/M c", "ｱa 漢字/K a-b"]
+    part1 = ["a|あ-a 1|a", "あ a-1|a/Q"]
+    dict1 = ["a/A", "aあ", "b-/X 1"]
+    cases = []
+    for no_norm in (False, True):
+        for (tk, pt, dc, args) in [(tok1, [], [], ["--charw", "2", "--charn", "2", "--typew", "2", "--typen", "2"]),
+                                   (tok1 + tok2, part1, dict1, ["--charw", "2", "--charn", "3", "--typew", "1", "--typen", "2", "--dictn", "2"]),
+                                   (tok2, part1, dict1, ["--charw", "3", "--charn", "1", "--typew", "2", "--typen", "2"]),
+                                   ([], part1 + ["a|b"], dict1[:1], ["--charw", "1", "--charn", "1", "--typew", "1", "--typen", "1", "--dictn", "1"])]:
+            cases.append({"id": len(cases), "no_norm": no_norm, "tok": [[ord(c) for c in x] for x in tk], "part": [[ord(c) for c in x] for x in pt],
+                          "dict": [[ord(c) for c in x] for x in dc], "args": args, "raw": (tk, pt, dc)})
+    cp = os.path.join(wd, "traincases.ndjson")
+    with open(cp, "w") as f:
+        for c in cases:
+            f.write(json.dumps({k: c[k] for k in ("id", "no_norm", "tok", "part", "dict")}) + "\n")
+    res = vlib.tlc("C20-gen-traincorpus", "Gen_TrainCorpus", vlib.cfg_text(constants={"Chains": len(cases)}, invariants=["Emit"]),
+                   env_extra={"CASES": cp}, jvm=["-Xss1g", "-XX:+UseParallelGC"])
+    loaded = {c["id"]: c for c in vlib.nonempty(vlib.cases_from(res["out"]), "Gen_TrainCorpus")}
+    ctx.add_tlc(res, f"Gen_TrainCorpus: {len(cases)} corpora as the train tool must load them (parsed by the specification's readers, text normalised)")
+    send = []
+    for c in cases:
+        ld = loaded[c["id"]]
+        if not ld["ok"]:
+            raise vlib.ToolError("Gen_TrainCorpus: corpus line rejected by the specification's reader")
+        a = dict(zip(c["args"][::2], c["args"][1::2]))
+        cfg = {"cw": int(a.get("--charw", 3)), "cn": int(a.get("--charn", 3)), "tw": int(a.get("--typew", 3)), "tn": int(a.get("--typen", 3)),
+               "dict": ld["words"], "dn": int(a.get("--dictn", 4)), "solver": 1, "eps": 0.01, "cost": 1.0}
+
+        def sent(s):
+            return {"fmt": "build", "sent": {"text": s["text"], "bnd": s["bnd"], "ntags": s["ntags"], "tags": s["tags"]}}
+        send.append({"id": c["id"], "kind": "train", "cfg": cfg, "corpus": [sent(s) for s in ld["sents"]],
+                     "tagdict": [sent(s) for s in ld["tagdict"]], "eval": [], "want_bytes": True})
+    # liblinear keeps a process-wide random generator: each library training runs in a fresh process, as the tool does
+    lib = vlib.run_replay(binp, send, "C20-trainlib", fresh_process=True)
+    events = []
+    for c in cases:
+        d = os.path.join(wd, f"train{c['id']}")
+        os.makedirs(d, exist_ok=True)
+        tk, pt, dc = c["raw"]
+        args = ["--model", os.path.join(d, "m.zst"), "--solver", "1"] + c["args"]
+        for name, lines, flag in (("c.tok", tk, "--tok"), ("c.part", pt, "--part"), ("d.txt", dc, "--dict")):
+            if lines:
+                open(os.path.join(d, name), "w").write("\n".join(lines) + "\n")
+                args += [flag, os.path.join(d, name)]
+        if c["no_norm"]:
+            args.append("--no-norm")
+        for pth in ("m.zst", "m.raw"):
+            if os.path.exists(os.path.join(d, pth)):
+                os.remove(os.path.join(d, pth))
+        p = subprocess.run([os.path.join(cli, "train")] + args, stdout=subprocess.PIPE, stderr=subprocess.PIPE, timeout=120, env=vlib.cargo_env())
+        tool_bytes = [-1]
+        if p.returncode == 0 and os.path.exists(os.path.join(d, "m.zst")):
+            vlib.run_harness(binp, ["unzstd", os.path.join(d, "m.zst"), os.path.join(d, "m.raw")], name="unzstd")
+            tool_bytes = list(open(os.path.join(d, "m.raw"), "rb").read())
+        o = lib[c["id"]]
+        lib_bytes = o.get("model_bytes") or [-2]
+        events.append({"id": c["id"], "ev": "pair", "ok": p.returncode == 0 and o.get("train") == "ok", "a": lib_bytes, "b": tool_bytes})
+        ctx.evaluations += 1
+        ctx.nontriv(("train", c["id"]))
+    rej, _ = vlib.validate_trace(ctx, "C20-train", "Trace_Pair", events)
+    for rid in rej:
+        c = cases[rid]
+        ctx.violation(f"C20:train:case{rid}:no_norm={c['no_norm']}", "the model written by the train tool differs from the model the library trains on the "
+                      f"corpus loaded as specified (args {c['args']}, tok {c['raw'][0][:2]}..., dict {c['raw'][2]})", {"kind": "cli20-train", "case": rid},
+                      cls="C20:train")
+    ctx.add_part(train_processes=len(cases), rejected=len(rej))
